@@ -334,6 +334,8 @@ def conform_histories(args):
     for hist in hists:
         if any(len(step) > 1 for step in hist):
             continue  # in-cycle placements cannot be steered on a real loop
+        if params.get("ttl") is not None or any(step[0][0] == "advance" for step in hist):
+            continue  # needs the virtual clock
         r = bfs.replay(model, hist)
         want = [s[0] for s in r.snapshots]
         for lk in loops:
